@@ -27,10 +27,29 @@ from .front import AnalysisError, repo_root
 from .report import EVIDENCE_DIR, Ctx
 
 
+VERIF_ROOT = Path(__file__).resolve().parent.parent
+
+
 def _load_variants():
+    """Hand-written textual variants plus the patch corpus: /verif/seeded/*/patch.diff (defects produced by independent
+    sub-agents: must fire for the property they break) and /verif/benign/*/patch.diff (behaviour-preserving refactorings: must stay silent)."""
     from .variants import VARIANTS
 
-    return VARIANTS
+    out = list(VARIANTS)
+    for d in sorted((VERIF_ROOT / "seeded").glob("*/")):
+        m, pf = d / "meta.json", d / "patch.diff"
+        if m.exists() and pf.exists():
+            meta = json.loads(m.read_text())
+            out.append({"id": f"seeded-{d.name}", "props": [meta["property"]], "expect": "fire", "edits": [], "patchfile": str(pf), "what": meta.get("summary", ""), "rules": {}})
+    for d in sorted((VERIF_ROOT / "benign").glob("*/")):
+        m, pf = d / "meta.json", d / "patch.diff"
+        if pf.exists():
+            meta = json.loads(m.read_text()) if m.exists() else {}
+            out.append({"id": f"benign-{d.name}", "props": meta.get("props") or ALL_PROPS, "expect": "silent", "edits": [], "patchfile": str(pf), "what": meta.get("summary", "")})
+    return out
+
+
+ALL_PROPS = [f"C{i:02d}" for i in range(1, 20)]
 
 
 def _apply(root: Path, edits) -> str | None:
@@ -59,13 +78,19 @@ def eval_variant(v: dict, props=None) -> dict:
         (tmp / "src").mkdir()
         shutil.copytree(src, tmp / "src" / "pyrtcm", ignore=shutil.ignore_patterns("__pycache__"))
         why = _apply(tmp, v["edits"])
+        if not why and v.get("patchfile"):
+            import subprocess
+
+            pr = subprocess.run(["patch", "-p1", "-s", "--no-backup-if-mismatch", "-i", v["patchfile"]], cwd=tmp, capture_output=True, text=True)
+            if pr.returncode != 0:
+                why = "patch does not apply to the current tree: " + (pr.stdout + pr.stderr).strip()[:120]
         if why:
             return {"id": v["id"], "status": "skipped", "detail": why}
         try:
             import ast
 
-            for rel, _, _ in v["edits"]:
-                ast.parse((tmp / "src" / "pyrtcm" / rel).read_text(encoding="utf-8"))
+            for pyf in (tmp / "src" / "pyrtcm").glob("*.py"):
+                ast.parse(pyf.read_text(encoding="utf-8"))
         except SyntaxError as err:
             return {"id": v["id"], "status": "broken-variant", "detail": f"does not compile: {err}"}
         results = {}
